@@ -1,10 +1,39 @@
 import Pendulum.Drv.Util
-/-! request handler for property C09 (stub until the property is built) -/
+import Pendulum.Model.Dur
+import Pendulum.Drv.DurF
+/-! request handler for property C09: `dur …`, `absdur …` (Duration / AbsoluteDuration construction) -/
 namespace Pendulum.Drv.C09
-open Pendulum Pendulum.Drv
+open Pendulum Pendulum.Drv Pendulum.Dur
+
+def argsOf : List Int → Option Args
+  | [y, mo, w, d, h, mi, s, ms, us] => some { y, mo, w, d, h, mi, s, ms, us }
+  | _ => none
+
+/-- native triple followed by the public components -/
+def fieldsD (d : D) : List Int :=
+  [Td.days d.native, Td.seconds d.native, Td.micros d.native, d.years, d.months, d.weeks, d.rdays,
+   hours d, minutes d, remainingSeconds d, d.micros]
+
+def totalsD (d : D) : List Int :=
+  [b2i (invert d), inWeeks d, inDays d, inHours d, inMinutes d, inSeconds d]
 
 def handle (_zs : Zones) (ws : List String) : Option String :=
   match ws with
+  | "dur" :: rest => do
+    let a ← argsOf (← ints rest)
+    let d := mk a
+    let r := mk (comps d)
+    -- trailing `1 1`: the two harness-side consistency flags (==/hash/total_seconds vs native slots; total_*() vs total_seconds())
+    some (okInts (fieldsD d ++ totalsD d ++ [b2i (decide (r = d)), 1, 1]))
+  | "absdur" :: rest => do
+    let a ← argsOf (← ints rest)
+    let x := mkAbs a
+    let d := x.asD
+    some (okInts ([Td.days x.native, Td.seconds x.native, Td.micros x.native, d.years, d.months, d.weeks, d.rdays,
+      hours d, minutes d, remainingSeconds d, d.micros, b2i x.invert,
+      inWeeks d, inDays d, inHours d, inMinutes d, inSeconds d, x.days]))
+  | "durf" :: _ => DurF.handle ws        -- float-faithful model, outside the float-exact range
+  | "absdurf" :: _ => DurF.handle ws
   | _ => none
 
 end Pendulum.Drv.C09
